@@ -8,7 +8,7 @@ def run(ctx):
     ok_x = vlib.step_extract(ctx)
     ok_p = vlib.step_prove(ctx) if ok_x else False
     n = 300 if ctx.tier == "quick" else 6000
-    tg = targeted.all_families()
+    tg = targeted.all_families() + [targeted.many_literals_created_twice()]
     progs, results, bad = mp.run_programs(ctx, n, tg, {"C09": mp.on_mir("C09b")})
     ctx.note(f"validate: C09b evaluated in Coq on {sum(1 for r in results if 'ok' in r)} implementation MIRs: {len(bad['C09'])} violating")
     for i in bad["C09"]:
